@@ -52,6 +52,13 @@ func (e *Eng) anchorClauses(call *ast.CallExpr) ([]AtClause, string) {
 			out = append(out, cls...)
 		}
 	}
+	// prefix anchors: `append(args, InputValue{...` matches every call whose text starts with the part before "..."
+	for k, cls := range e.con.At {
+		if strings.HasSuffix(k, "...") && strings.HasPrefix(text, strings.TrimSuffix(k, "...")) {
+			e.con.atUsed[k] = true
+			out = append(out, cls...)
+		}
+	}
 	return out, text
 }
 
@@ -133,7 +140,7 @@ func (e *Eng) evalCallInner(st *State, call *ast.CallExpr) []*Val {
 				for _, c := range cls {
 					if c.Kind == "requires" {
 						g := e.evalSpec(st, c.Expr, env, e.oldEnv)
-						e.oblige(st, "at", text+" requires "+c.Src, g.T, call.Pos())
+						e.oblige(st, "at", shortText(text)+" requires "+c.Src, g.T, call.Pos())
 					}
 				}
 			}
@@ -218,7 +225,7 @@ func (e *Eng) evalCallInner(st *State, call *ast.CallExpr) []*Val {
 		switch c.Kind {
 		case "requires":
 			g := e.evalSpec(st, c.Expr, senv(), e.oldEnv)
-			e.oblige(st, "at", text+" requires "+c.Src, g.T, call.Pos())
+			e.oblige(st, "at", shortText(text)+" requires "+c.Src, g.T, call.Pos())
 		case "assume":
 			g := e.evalSpec(st, c.Expr, senv(), e.oldEnv)
 			e.assume(st, g.T)
@@ -488,8 +495,35 @@ func (e *Eng) evalBuiltin(st *State, name string, call *ast.CallExpr) []*Val {
 	case "append":
 		sl := e.eval(st, call.Args[0])
 		t := e.info.TypeOf(call).Underlying().(*types.Slice)
+		if call.Ellipsis.IsValid() && len(call.Args) == 2 {
+			// append(a, b...): length is exact, the backing array is either the old one (written in place) or a
+			// fresh one; element contents of the result array are abstracted, all other arrays are unchanged
+			other := e.eval(st, call.Args[1])
+			olen := "0"
+			switch other.Sort {
+			case "Slice":
+				olen = other.Elems[2].T
+			case "Str":
+				olen = "(slen " + other.T + ")"
+			}
+			same := e.declare(e.fresh("app.same"), "Bool")
+			fresh := e.freshNonNil("app.arr", types.Typ[types.Uintptr])
+			arr := e.define("arr", "Int", fmt.Sprintf("(ite (and %s (not (= %s 0))) %s %s)", same, sl.Elems[0].T, sl.Elems[0].T, fresh.T))
+			off := e.define("off", "Int", fmt.Sprintf("(ite (and %s (not (= %s 0))) %s 0)", same, sl.Elems[0].T, sl.Elems[1].T))
+			e.pureWrite(st, arr, "slice element")
+			name, srt := e.elemsHeap(st, t.Elem())
+			cur := e.heapSym(st, name, srt)
+			nh := e.declare(e.fresh("H.app."+name), srt)
+			e.assume(st, fmt.Sprintf("(forall ((r Int)) (=> (not (= r %s)) (= (select %s r) (select %s r))))", arr, nh, cur))
+			st.heap[name] = nh
+			// a zero-length append of nothing keeps nil
+			nl := fmt.Sprintf("(+ %s %s)", sl.Elems[2].T, olen)
+			res := &Val{Sort: "Slice", Go: e.info.TypeOf(call), Elems: []*Val{scalar(arr, "Int", nil), scalar(off, "Int", nil), scalar(nl, "Int", nil)}}
+			e.gap("append(a, b...): element contents abstracted")
+			return []*Val{res}
+		}
 		if call.Ellipsis.IsValid() || len(call.Args) != 2 {
-			e.gap("append with ... or multiple args: contents abstracted")
+			e.gap("append with multiple args: contents abstracted")
 			r := e.freshVal("app", e.info.TypeOf(call))
 			return []*Val{r}
 		}
@@ -501,6 +535,8 @@ func (e *Eng) evalBuiltin(st *State, name string, call *ast.CallExpr) []*Val {
 		cur := e.heapSym(st, name, srt)
 		arr := fmt.Sprintf("(ite (and %s (not (= %s 0))) %s %s)", same, sl.Elems[0].T, sl.Elems[0].T, fresh.T)
 		arr = e.define("arr", "Int", arr)
+		// an in-place append writes into the old backing array
+		e.pureWrite(st, arr, "slice element")
 		off := e.define("off", "Int", fmt.Sprintf("(ite (and %s (not (= %s 0))) %s 0)", same, sl.Elems[0].T, sl.Elems[1].T))
 		nl := fmt.Sprintf("(+ %s 1)", sl.Elems[2].T)
 		res := &Val{Sort: "Slice", Go: e.info.TypeOf(call), Elems: []*Val{scalar(arr, "Int", nil), scalar(off, "Int", nil), scalar(nl, "Int", nil)}}
@@ -567,4 +603,12 @@ func (e *Eng) evalBuiltin(st *State, name string, call *ast.CallExpr) []*Val {
 		}
 	}
 	return nil
+}
+
+// shortText abbreviates long call texts in obligation names (stable: a prefix of the normalised source text).
+func shortText(t string) string {
+	if len(t) > 70 {
+		return t[:70] + "..."
+	}
+	return t
 }
